@@ -319,6 +319,14 @@ def t_trees(ctx, p, mc, real, kind, shard, n, big_budget):
         ex = [dict(base, tree=["bad_mix", ["var", 0]], vars=v, fq_coeffs=False),
               dict(base, tree=["pow", ["var", 0], 2 ** 745 + 1], vars=v, fq_coeffs=False),
               dict(base, tree=["div", ["var", 0], ["sub", ["var", 1], ["var", 1]]], vars=v, fq_coeffs=False)]
+        # powers of ZERO at the exponents where an 'exponent mod (order - 1)' shortcut is wrong, and 0 ** 0
+        z = [0 if is_fq else [0] * d] * 3
+        for e_ in (order - 1, 2 * (order - 1), 0, order):
+            ex.append(dict(base, tree=["pow", ["var", 0], e_], vars=z, fq_coeffs=False))
+        # and of a non-zero element at the group order and around it
+        g_ = [2 % p or 1 if is_fq else [1, 1] + [0] * (d - 2)] * 3
+        for e_ in (order - 1, order, order - 2, -1):
+            ex.append(dict(base, tree=["pow", ["var", 0], e_], vars=g_, fq_coeffs=False))
         if not is_fq:
             ex.append(dict(base, tree=["bad_add_i", ["var", 0], 1], vars=v, fq_coeffs=False))
             ex.append(dict(base, tree=["add", ["var", 0], ["var", 1]], vars=v, fq_coeffs=True))
